@@ -2,6 +2,7 @@ package mon
 
 import (
 	"fmt"
+	"strconv"
 	"sync"
 
 	"verif/harness/core"
@@ -87,11 +88,28 @@ func c18holds(o c18obj) bool {
 func c18Trees(p core.Params) int { return p.Pick(400, 20000) }
 
 func c18Pointers(root ast.Vertex) (toks map[*token.Token]bool, poss map[*position.Position]bool) {
+	toks, poss, _ = c18PointersDup(root)
+	return
+}
+
+// c18PointersDup also names the first position object that two holders (tokens or nodes) of ONE tree share.
+func c18PointersDup(root ast.Vertex) (toks map[*token.Token]bool, poss map[*position.Position]bool, shared string) {
 	toks, poss = map[*token.Token]bool{}, map[*position.Position]bool{}
+	holder := map[*position.Position]string{}
+	note := func(p *position.Position, who string) {
+		if prev, dup := holder[p]; dup && shared == "" {
+			shared = prev + " and " + who
+		}
+		holder[p] = who
+		poss[p] = true
+	}
 	for _, tr := range obs.Tokens(root) {
+		if toks[tr.Tok] {
+			continue
+		}
 		toks[tr.Tok] = true
 		if tr.Tok.Position != nil {
-			poss[tr.Tok.Position] = true
+			note(tr.Tok.Position, "token "+strconv.Quote(string(tr.Tok.Value)))
 		}
 	}
 	obs.Walk(root, func(n, parent ast.Vertex, role string, depth int) bool {
@@ -99,7 +117,7 @@ func c18Pointers(root ast.Vertex) (toks map[*token.Token]bool, poss map[*positio
 			return true
 		}
 		if p := n.GetPosition(); p != nil {
-			poss[p] = true
+			note(p, "node "+obs.Kind(n)+"<"+obs.Kind(parent)+"."+role)
 		}
 		return true
 	})
@@ -156,7 +174,11 @@ func c18TreesAlive(c *core.Ctx, idx int) {
 			c.Violation("pool|trees-alive|tree-changed-by-other-parse", fmt.Sprintf("tree %d of %d changed while the other parses ran: %s", i, k, obs.FirstDiff(trees[i].fp, now)), w)
 			return
 		}
-		ts, ps := c18Pointers(trees[i].root)
+		ts, ps, sharedIn := c18PointersDup(trees[i].root)
+		if sharedIn != "" {
+			c.Violation("pool|trees-alive|position-shared-within-tree", fmt.Sprintf("one position object is held twice in tree %d: by %s", i, sharedIn), core.W(trees[i].pc.Src, trees[i].pc.Ver).With("mode", "trees-alive"))
+			return
+		}
 		for t := range ts {
 			if j, dup := ownerT[t]; dup {
 				c.Violation("pool|trees-alive|token-shared-between-trees", fmt.Sprintf("one token object belongs to tree %d and tree %d (value %q)", j, i, t.Value), w)
@@ -186,7 +208,7 @@ func c18TreesAlive(c *core.Ctx, idx int) {
 func init() {
 	core.Register(&core.Check{
 		ID:   "C18",
-		Rule: "cases = {token,position} pool x {single, two interleaved pools of one size, 2..5 interleaved pools of different sizes} x block size (1..64 and boundary sizes; thorough 1..300 and up to 4097); each case is a history of 4*size+3 Get calls with all prefixes checked (objects written at once, or only after 1, 2, size or all further requests), plus long histories (200k / 1.5M requests for sizes 1,2,3,7,64,1000,1024,1025 and 4*size+3 requests for sizes 8192..100000) checked at every doubling and at the end; plus trees-alive cases: 2..5 Parse calls (sequential or on goroutines) whose trees are all kept — token and position objects pairwise distinct across the trees, every tree unchanged after the last parse; non-trivial = history crossed at least one block boundary; distinct by (mode, size, requests)",
+		Rule: "cases = {token,position} pool x {single, two interleaved pools of one size, 2..5 interleaved pools of different sizes} x block size (1..64 and boundary sizes; thorough 1..300 and up to 4097); each case is a history of 4*size+3 Get calls with all prefixes checked (objects written at once, or only after 1, 2, size or all further requests), plus long histories (200k / 1.5M requests for sizes 1,2,3,7,64,1000,1024,1025 and 4*size+3 requests for sizes 8192..100000) checked at every doubling and at the end; plus trees-alive cases: 2..5 Parse calls (sequential or on goroutines) whose trees are all kept — token and position objects pairwise distinct across the trees and no position object held by two tokens/nodes of one tree, every tree unchanged after the last parse; non-trivial = history crossed at least one block boundary; distinct by (mode, size, requests)",
 		Assumptions: []string{
 			"the public Pool API (NewPool, Get) is the only way the library obtains tokens and positions",
 			"block size 0 (Get returns nil) is outside the property's quantifier (positive sizes)",
